@@ -1317,6 +1317,11 @@ func (c *Context) Reduce(d, x *Decimal) (int, Condition, error) {
 	_, n := d.Reduce(x)
 	d.Negative = neg
 	res := c.round(d, d)
+	// Rounding can itself produce trailing zeros (9.95 -> 10 at two digits)
+	// or a zero, so strip once more.
+	_, m := d.Reduce(d)
+	d.Negative = neg
+	n += m
 	res, err := c.goError(res)
 	return n, res, err
 }
